@@ -131,14 +131,15 @@ def bbc_jobs():
                  bound_note="every ell <= 10000 (loop contract), ghost accumulators; step and final functions replaced by their contracts"))
     # two-coefficient block forms (reference): same step / recombination contracts, NROWS calls per iteration; one run per
     # tracked row and lane; ghost call counter, operand tie for term GI
-    for nrows, fn in ((2, "q120x2_vec_mat1col_product_bbc_ref"), (4, "q120x2_vec_mat2cols_product_bbc_ref")):
-        words = " && ".join("s[%d][%d] <= i * 8589934590ul" % (r, j) for r in range(nrows) for j in range(8))
+    for nrows, fn in ((1, "q120_vec_mat1col_product_bbc_ref"), (2, "q120x2_vec_mat1col_product_bbc_ref"), (4, "q120x2_vec_mat2cols_product_bbc_ref")):
+        sw = (lambda r, j: "s[%d]" % j) if nrows == 1 else (lambda r, j: "s[%d][%d]" % (r, j))
+        words = " && ".join("%s <= i * 8589934590ul" % sw(r, j) for r in range(nrows) for j in range(8))
         for row in range(nrows):
             for lane in range(4):
-                inv = ("i <= ell && CALLI == i && CALLR == 0 && FINR == 0 && %s && ((unsigned __int128)s[%d][%d] + (((unsigned __int128)s[%d][%d]) << 32)) == ACC[%d]"
-                       " && (GI < i ==> ((const char*)GX == (const char*)x + 64 * GI + %d && (const char*)GY == (const char*)y + %d * GI + %d))"
-                       % (words, row, 2 * lane, row, 2 * lane + 1, lane, 32 * (row & 1), 32 * nrows, 32 * row))
-                J.append(Job(name="q120.bbc.%s.row%d.lane%d" % (fn, row, lane), props=["C10", "C04", "C11", "C18"], shape="S1", sources=REF, harness="q120_bbc.c",
+                inv = ("i <= ell && CALLI == i && CALLR == 0 && FINR == 0 && %s && ((unsigned __int128)%s + (((unsigned __int128)%s) << 32)) == ACC[%d]"
+                       " && (GI < i ==> ((const char*)GX == (const char*)x + %d * GI + %d && (const char*)GY == (const char*)y + %d * GI + %d))"
+                       % (words, sw(row, 2 * lane), sw(row, 2 * lane + 1), lane, 32 if nrows == 1 else 64, 32 * (row & 1), 32 * nrows, 32 * row))
+                J.append(Job(name="q120.bbc.%s.%srow%d.lane%d" % (fn, "tie." if nrows == 1 else "", row, lane), props=["C10", "C04", "C11", "C18"], shape="S1", sources=REF, harness="q120_bbc.c",
                              entry="h_bbc_x2_ref", export_static=True, defines=dict(d, LANE=lane, LEAN_STEP=1, NROWS=nrows, GROW=row),
                              enforce=[(fn, "bbc_x2_ref__c")],
                              replace=[("__CPROVER_file_local_q120_arithmetic_ref_c_accum_mul_q120_bc", "accum_mul_x2__c"),
@@ -146,7 +147,7 @@ def bbc_jobs():
                              loops={fn: {"count": 1, "loops": [
                                  {"id": 0, "assigns": "i, __CPROVER_object_whole(s), __CPROVER_object_whole(ACC), __CPROVER_object_whole(GTERM), CALLI, CALLR, GX, GY", "invariants": inv, "decreases": "ell - i"}]}},
                              cbmc_flags=["--no-signed-overflow-check", "--object-bits", "10"], functions=[fn], timeout=3000, solver="race",
-                             tier="quick" if (nrows == 2 and row == 1 and lane == 1) else ("manual" if (nrows == 4 and lane != row) else "thorough"),
+                             tier="quick" if (nrows == 2 and row == 1 and lane == 1) else ("manual" if ((nrows == 4 and lane != row) or (nrows == 1 and lane != 2)) else "thorough"),
                              bound_note="every ell <= 10000 (loop contract), tracked row %d lane %d; step and recombination replaced by their contracts" % (row, lane)))
     # a*a range proof (every ell <= 10000): the 4-lane inner loops are unwound before instrumentation (dfcc rejects a contract
     # on a loop nested in a contract loop), the outer loop carries the accumulator bounds, CBMC's unsigned-overflow checks
